@@ -1444,7 +1444,9 @@ class CircuitTemplate(AbstractBaseTemplate):
                 path = _complete_template_path(template, self.path)
                 template = EdgeTemplate.from_yaml(path)
 
-            edges_with_templates.append((source, target, template, variables))
+            # (a copy of the attribute dictionary: `update_var` changes edge attributes in place, which must neither reach the
+            # caller's dictionary nor other circuits built from the same edge list)
+            edges_with_templates.append((source, target, template, dict(variables) if isinstance(variables, dict) else variables))
 
             idx = 0
             while (source, target, idx) in self._edge_map:
